@@ -1,0 +1,28 @@
+// +build verif
+
+package verifhook
+
+// Yield, when set, is called at schedule points of the synchronisation
+// primitives and of a few other packages. It only offers the simulator a
+// chance to switch goroutines; it never enforces anything.
+var Yield func(site string)
+
+// BeforeLock, when set, is called immediately before a sync lock acquisition
+// that the simulator must not let block while other tasks are parked at a
+// schedule point. write is false for read locks. The hook may only probe the
+// lock (TryLock followed by Unlock); it must leave it as it found it.
+var BeforeLock func(l interface{}, write bool, site string)
+
+// Do calls Yield if it is set.
+func Do(site string) {
+	if h := Yield; h != nil {
+		h(site)
+	}
+}
+
+// Lock calls BeforeLock if it is set.
+func Lock(l interface{}, write bool, site string) {
+	if h := BeforeLock; h != nil {
+		h(l, write, site)
+	}
+}
